@@ -18,7 +18,16 @@ for qn, r in prog.records.items():
         continue
     for fl in r.get("fields", []):
         names.setdefault(fl["name"], set()).add(qn)
-todo = sys.argv[1:] or sorted(n for n in names if re.match(r"^[A-Za-z]\w*$", n) and len(n) > 2)
+FUNCS = "--functions" in sys.argv
+args = [a for a in sys.argv[1:] if a != "--functions"]
+if FUNCS:
+    # the functions the rule modules name (rules/functions.json): renamed consistently like the members
+    fz = json.load(open(os.path.join(HERE, "rules", "functions.json")))
+    fnames = sorted({q.split("::")[-1] for v in fz.values() for q in v if re.match(r"^[A-Za-z_]\w*$", q.split("::")[-1]) and not q.split("::")[-1].startswith("operator")})
+    todo = args or [n for n in fnames if len(n) > 3]
+else:
+    todo = args or sorted(n for n in names if re.match(r"^[A-Za-z]\w*$", n) and len(n) > 2)
+OUT = "/tmp/rename_matrix_%s.json" % ("functions" if FUNCS else "members")
 files = subprocess.check_output("grep -rlE . /repo/src /repo/include --include=*.cpp --include=*.h --include=*.c", shell=True, text=True).split()
 
 def one(name):
@@ -56,5 +65,5 @@ with ThreadPoolExecutor(max_workers=8) as ex:
         for p, v in res["alarms"].items():
             for l in v[:1]:
                 print("      ", l[:260], flush=True)
-json.dump(out, open("/tmp/rename_matrix.json", "w"), indent=1, sort_keys=True)
+json.dump(out, open(OUT, "w"), indent=1, sort_keys=True)
 print("renames: %d, alarming: %d, undecided: %d, silent: %d" % (len(out), sum(1 for r in out.values() if r["alarms"]), sum(1 for r in out.values() if not r["alarms"] and r["undecided"]), sum(1 for r in out.values() if not r["alarms"] and not r["undecided"])))
